@@ -89,7 +89,7 @@ type peer struct {
 }
 
 func (p *peer) responsive() bool { return p.spec.Kind == "honest" || p.spec.Kind == "garbage" }
-func (p *peer) pingable() bool    { return p.spec.Kind != "mute" }
+func (p *peer) pingable() bool   { return p.spec.Kind != "mute" }
 
 func (p *peer) emit(ev map[string]any) {
 	ev["p"] = p.id
